@@ -584,7 +584,7 @@ func one(k *run.K) {
 }
 
 func runAll(c *run.Ctx) {
-	for i := 0; i < c.N(4000, 100000); i++ {
+	for i := 0; i < c.N(12000, 120000); i++ {
 		c.Case("family", i, one)
 	}
 }
